@@ -47,7 +47,9 @@ Theorem c05_register_lookup : forall t k h k',
 Proof. exact lookup_register. Qed.
 Print Assumptions c05_register_lookup.
 
-(* immutability: the record at a given position of the published list is the same in every later state *)
+(* immutability: the record at a given position of the published list is the same in every later state (published =
+   evicted + listed segments with their parts; the finalized parts of the OPEN segment are covered by
+   c01_no_rotation_changes_a_log / the log theorems of C01, not by this theorem) *)
 Theorem c05_immutable : forall (ops2 : list wop) m1 m2,
   m2 = mux_run m1 ops2 -> forall si s1 s2 n g,
   nth_error (m_streams m1) si = Some s1 -> nth_error (m_streams m2) si = Some s2 ->
@@ -55,7 +57,9 @@ Theorem c05_immutable : forall (ops2 : list wop) m1 m2,
 Proof. exact msn_stable. Qed.
 Print Assumptions c05_immutable.
 
-(* the parts of a published segment tile it: the segment is the concatenation of its parts *)
+(* the parts of a published segment tile its TIME span (invariant TI: part i ends where part i+1 starts, the first
+   starts at the segment's start, the last ends at its end); that the segment's BYTES are the concatenation of its
+   parts' bytes is the storage model's theorem (C17) plus the oracle on the served bytes, not this theorem *)
 Theorem c05_segment_is_its_parts : forall c ops m si s,
   reach c ops m -> nth_error (m_streams m) si = Some s -> TI (c_variant (norm_cfg c)) s.
 Proof. exact reach_TI. Qed.
